@@ -1603,6 +1603,30 @@ func libTransfer(fn *ssa.Function, args []fval) (fval, error) {
 				return fval{tuple: []fval{{k: constant.MakeUint64(n), t: types.Typ[types.Uint64]}, {isNil: true}}}, nil
 			}
 		}
+	case "strconv.Atoi", "strconv.ParseInt":
+		// doc: Atoi is ParseInt(s, 10, 0) converted to int; a failure yields a non-nil *NumError
+		if len(args) >= 1 && args[0].k != nil && args[0].k.Kind() == constant.String {
+			base, bitsz := int64(10), int64(0)
+			ok := true
+			if name == "strconv.ParseInt" {
+				var ok1, ok2 bool
+				base, ok1 = argInt(1)
+				bitsz, ok2 = argInt(2)
+				ok = len(args) == 3 && ok1 && ok2
+			}
+			if ok {
+				n, err := strconv.ParseInt(constant.StringVal(args[0].k), int(base), int(bitsz))
+				rt := types.Typ[types.Int64]
+				if name == "strconv.Atoi" {
+					rt = types.Typ[types.Int]
+				}
+				if err != nil {
+					nextErrID++
+					return fval{tuple: []fval{{k: constant.MakeInt64(0), t: rt}, {nonNil: true, errID: nextErrID}}}, nil
+				}
+				return fval{tuple: []fval{{k: constant.MakeInt64(n), t: rt}, {isNil: true}}}, nil
+			}
+		}
 	case "strings.Join":
 		// doc: Join concatenates the elements of its first argument to create a single string, sep between elements.
 		if len(args) == 2 && args[1].k != nil && args[1].k.Kind() == constant.String {
